@@ -347,13 +347,26 @@ def constructors(an, rep):
             reads = called(p, "BinaryInput::read_var_u32")
             if v == "Some":
                 cached += 1
-                R.check(kind == "ok" and not reads and "read_constructor_idx" in show(what), b.key, "cached",
-                        "cached index is not returned as is")
+                ret = strip_refs(what) if kind == "ok" else ("unk",)
+                rv = strip_refs(ret[4][0]) if ret[0] == "agg" and ret[3] == "Ok" and ret[4] else ("unk",)
+                plain = rv[0] == "field" and rv[1][0] == "variant" and "read_constructor_idx" in show(rv)
+                R.check(kind == "ok" and not reads and plain, b.key, "cached",
+                        "cached index is not returned as is (returned %s)" % show(what))
             elif v == "None" and kind == "ok":
                 fresh += 1
                 st = [s for s in p.stores() if "read_constructor_idx" in show(s[1])]
-                R.check(len(reads) == 1 and len(st) == 1 and "read_var_u32" in show(st[0][2]) and "read_var_u32" in show(what),
-                        b.key, "fresh", "index is not read once as VarU32, cached and returned", None,
+                okk = len(reads) == 1 and len(st) == 1
+                if okk:
+                    # the cached value and the returned value are the value read, unchanged (no narrowing / arithmetic)
+                    cterm = strip_refs(st[0][2])
+                    inner = strip_refs(cterm[4][0]) if cterm[0] == "agg" and cterm[3] == "Some" and cterm[4] else None
+                    ret = strip_refs(what)
+                    rv = strip_refs(ret[4][0]) if ret[0] == "agg" and ret[3] == "Ok" and ret[4] else None
+                    def is_read(t):
+                        return t is not None and t[0] == "ok" and is_call(t[1], "BinaryInput::read_var_u32")
+                    okk = is_read(inner) and is_read(rv)
+                R.check(okk, b.key, "fresh", "index is not read once as VarU32 and cached / returned unchanged (stored: %s, "
+                        "returned: %s)" % ([show(x[2]) for x in st], show(what)), None,
                         sample={"fn": b.key, "reads": "read_var_u32 once, cached"})
         R.check(cached > 0 and fresh > 0, b.key, "coverage", "cached=%d fresh=%d" % (cached, fresh))
     b = core.find("AdtDeserializer::read_constructor")
